@@ -8,7 +8,6 @@ NOT_APPLICABLE = {
     'C03': 'check not built yet in this round (planned, see DESIGN.md section 5)',
     'C05': 'check not built yet in this round (planned, see DESIGN.md section 5)',
     'C06': 'check not built yet in this round (planned, see DESIGN.md section 5)',
-    'C11': 'check not built yet in this round (planned, see DESIGN.md section 5)',
     'C14': 'check not built yet in this round (planned, see DESIGN.md section 5)',
     'C15': 'check not built yet in this round (planned, see DESIGN.md section 5)',
     'C18': 'check not built yet in this round (planned, see DESIGN.md section 5)',
@@ -203,4 +202,21 @@ PROPS['C10'] = dict(
     require_counters={'config/edgebreaker': 3000, 'config/kd-tree': 500, 'config/mesh-sequential': 1000, 'config/pc-sequential': 1000, 'config/*/legacy': 20,
                       'attribute/skipped-quantization': 10000, 'attribute/skipped-octahedral': 1000, 'subsets_checked': 50000},
     assumptions=['same stream decodes to the same attribute and point order in both decodes (C06)'],
+)
+
+PROPS['C11'] = dict(
+    title='Geometry and attribute metadata survive the round trip',
+    technique='runtime monitoring: independent recursive tree comparison over generated metadata trees attached to generated geometries; ASan/UBSan slice',
+    level='exploration',
+    level_text=('Generated metadata trees (depth 0-8, up to 40 entries per level, int/double/array/string/binary entries of 0..64 KiB, names of length 0,1,254,255,256,300 with arbitrary bytes incl. NUL and >= 0x80, '
+                'names reused across levels, 0-5 attribute-metadata blocks with arbitrary unique ids) are attached to meshes and point clouds and round-tripped under every encoding method; an independent walk over '
+                'entries()/sub_metadatas()/attribute_metadatas() requires identical names, byte-exact values, nesting and attribute ids whenever the encoder reports success; refusals are classified by cause.'),
+    level_note='Sampled. Nesting deeper than 8 is outside the property quantifier and not driven.',
+    rule='one case = (small geometry, option vector, metadata tree). Non-trivial = encoder accepted and the tree has >= 1 entry / sub-metadata / attribute metadata; distinct = hash of the stream.',
+    runs=[dict(variant='plain', harness='c11_metadata', cases=dict(quick=30000, thorough=800000)),
+          dict(variant='asan', harness='c11_metadata', tag='asan-slice', cases=dict(quick=3000, thorough=60000))],
+    min_nontrivial=8000,
+    require_counters={'config/edgebreaker': 1000, 'config/kd-tree': 500, 'entries': 100000, 'sub_metadata': 20000, 'attribute_metadata': 10000, 'empty_names': 1000, 'depth/8': 300,
+                      'encoder_refused/Failed to encode metadata./name>255/*': 500, 'encoder_refused/Failed to encode metadata./names<=255/empty-value': 500},
+    assumptions=[],
 )
